@@ -1,5 +1,6 @@
 """C18 — script-number encoding is a bijection on minimal encodings."""
 import random
+from . import runlib as R
 
 
 def gen_lines(ctx):
@@ -46,6 +47,34 @@ def gen_lines(ctx):
     return lines
 
 
+def use_site_lines(ctx):
+    """every opcode that reads a number applies the codec with its own size limit (4 bytes; 5 for the two lock-time opcodes)"""
+    rnd = random.Random(ctx.seed + 18)
+    edge = [0x00, 0x01, 0x7f, 0x80, 0x81, 0xff]
+    operands = [b"", b"\x00", b"\x80", b"\x01", b"\x81", b"\x7f", b"\xff"]
+    for ln in (2, 3, 4, 5, 6):
+        for top in edge:
+            for prev in edge:
+                operands.append(bytes(rnd.randrange(256) for _ in range(ln - 2)) + bytes([prev, top]))
+    operands += [bytes.fromhex(h) for h in ("0000008000", "ffffffff00", "0100000001", "0000008080", "0000800000", "0000000080",
+                                            "ffffff7f", "ffffffff", "00000080", "ffffffff7f", "ffffffffff", "0000000001")]
+    # (opcode, items below the operand, operand position from top is 0)
+    sites = [(0x8b, []), (0x8c, []), (0x8f, []), (0x90, []), (0x91, []), (0x92, []), (0x93, [b"\x01"]), (0x94, [b"\x01"]),
+             (0x9a, [b"\x01"]), (0x9c, [b"\x01"]), (0x9f, [b"\x01"]), (0xa3, [b"\x01"]), (0xa5, [b"\x01", b"\x02"]),
+             (0x79, [b"\x05", b"\x06"]), (0x7a, [b"\x05", b"\x06"]), (0xb1, []), (0xb2, []), (0xae, [b""])]
+    lines = []
+    for op, below in sites:
+        for v in operands:
+            for flags in (R.STD, R.STD & ~(1 << R.FLAG_BITS["MINIMALDATA"]), 0):
+                for sv in ((0, 1, 3) if op != 0xae else (0, 1)):
+                    lines.append(R.run_line(sv, flags, bytes([op]), list(below) + [v]))
+    # the operand in second position of binary operators
+    for op in (0x93, 0x94, 0x9f, 0xa4):
+        for v in operands:
+            lines.append(R.run_line(0, R.STD, bytes([op]), [v, b"\x01"]))
+    return lines
+
+
 def sweep_lines(ctx):
     lines = []
     if ctx.tier == "thorough":
@@ -85,6 +114,7 @@ def run(ctx):
     model = ctx.driver_sharded(lines, "model")
     spec = ctx.driver_sharded(lines, "spec")
     ctx.compare("scriptnum", lines, impl, model, spec)
+    R.three_way(ctx, "scriptnum-use-sites", use_site_lines(ctx))
     sw = sweep_lines(ctx)
     impl = ctx.harness_sharded(sw, shards=16) if len(sw) >= 64 else [ctx.harness([l])[0] for l in sw]
     model = ctx.driver_sharded(sw, "model", shards=16) if len(sw) >= 64 else [ctx.driver([l])[0] for l in sw]
